@@ -222,6 +222,8 @@ def run(run):
             cl_ = canon_list(e, text)
             got.add(tuple(cl_) if cl_ is not None else ("?" + x,))
         want = ("map(sorted(ELEM(brothers), key=bytes.fromhex(get_block_hash($x))))",)
+        if any(len(t) == 1 and t[0].startswith("map(") for t in got):
+            got.discard(())      # a list built by appending in a loop: the zero-iteration variant is map over an empty sequence
         ok = got == {want}
         run.check("R4", ok, "each brother list is sorted ascending by block-hash bytes, all brothers kept", key="advance_blockchain|brothers-sort", where=adv.loc(c),
                   message=f"advance_blockchain passes brothers prepared as {sorted(got)[:2]}; expected {want}: another order, key or a collapsed / filtered list is not "
